@@ -4,6 +4,7 @@ History on one component instance: construct -> a seeded sequence of {elaborate 
 a stimulus burst} steps (the "restart" fault: the same instance is elaborated again and again,
 simulated and then synthesised or the other way round) -> query its metadata. Every component
 class and the configuration generators of all other worlds are used."""
+import hashlib
 import signal
 
 from simkit.core import World, Violation, Refused
@@ -173,7 +174,8 @@ class ElabWorld(World):
                 raise Violation("C19", "elaboration-altered-metadata", step,
                                 f"{cls_name}: memory map / event map reports changed",
                                 key=f"metadata:{cls_name}")
-            hist.rec(step, k, len(texts[-1]) if k == "rtlil" else traces[-1])
+            hist.rec(step, k, hashlib.blake2b(texts[-1].encode(), digest_size=8).hexdigest()
+                     if k == "rtlil" else traces[-1])
         if n_elab >= 2:
             stats.work += 1
         stats.state("class(elaborations)", f"{cls_name},{min(n_elab, 4)}")
